@@ -10,6 +10,11 @@ that CellParser() really constructs, beyond the class of `undefined` (gen_tables
                         `undefined=` swapped after construction, a lenient subclass of
                         StrictUndefined, a `finalize` hook or a defaulting global are all seen):
                         ProbeError | ProbeBlank | ProbeOther
+* env_repr_fails, native_repr_fails, native_result_checked
+                        what the code does with the Undefined object of an unknown name that
+                        nothing forces because it sits inside a list / tuple / dict: printed by
+                        repr() (error or the text "Undefined"), handed back by a native template
+                        (error or the object) - probed through parse_as_string, fail-closed
 """
 from gen_tables import Refuse, coq_str, coq_list
 
@@ -99,6 +104,88 @@ def tables_c16(out, notes):
         out.append("Definition probe_control_ok : bool := true.")
         fin = cp.env.finalize is None and cp.native_env.finalize is None
         out.append(f"Definition env_finalize_is_none : bool := {'true' if fin else 'false'}.")
+
+        # ---- what happens to an Undefined object that NOTHING forces (inside a container)
+        # env_repr_fails / native_repr_fails: printing a list / tuple / dict that holds the
+        #   Undefined object of an unknown name (str(container) shows its elements with repr()):
+        #   an error (true) or the text of jinja2's repr, "Undefined" (false).  The native
+        #   environment's class is probed through the `string` filter, which prints inside the
+        #   engine whatever is done with the result afterwards.
+        # native_result_checked: does parse_as_string fail when the result of a {@ @} template
+        #   is, or holds at some depth, an Undefined object (true), or does it hand it back (false)
+        # Anything else (some shapes guarded and others not, a different repr text) is not
+        # something the model can follow: Refuse.
+        def shape_probe(what, cases):
+            seen = set()
+            for tmpl, leaked in cases:
+                fresh = CellParser()
+                try:
+                    r = fresh.parse_as_string(tmpl, ctx)
+                except (Crit, Exception, SystemExit):
+                    seen.add("error")
+                    continue
+                seen.add("leak" if leaked(r) else f"other:{tmpl!r} -> {r!r:.60}")
+            if seen == {"error"}:
+                return True
+            if seen == {"leak"}:
+                return False
+            raise Refuse(f"{what}: the probes disagree or give something unexpected: {sorted(seen)}")
+
+        S = SENTINEL
+        text_cases = [("{{ [%s] }}" % S, "[Undefined]"), ("{{ (%s, 1) }}" % S, "(Undefined, 1)"),
+                      ("{{ {'a': %s} }}" % S, "{'a': Undefined}"), ("{{ [1, [(%s,)]] }}" % S, "[1, [(Undefined,)]]"),
+                      ("a{{ ['b', %s] }}" % S, "a['b', Undefined]"),
+                      # the Undefined object of a missing FIELD / of an index out of range
+                      ("{{ [zq_obj.%s] }}" % S, "[Undefined]"), ("{{ (zq_list[7],) }}", "(Undefined,)")]
+        env_repr = shape_probe("env_repr_fails", [(t, (lambda r, w=w: r == w)) for t, w in text_cases])
+        nat_cases = [("{@ [%s]|string @}" % S, "[Undefined]"), ("{@ (%s, 1)|string @}" % S, "(Undefined, 1)"),
+                     ("{@ {'a': %s}|string @}" % S, "{'a': Undefined}"), ("{@ [zq_obj.%s]|string @}" % S, "[Undefined]")]
+        nat_repr = shape_probe("native_repr_fails", [(t, (lambda r, w=w: r == w)) for t, w in nat_cases])
+        # cross-check with the classes themselves
+        import jinja2
+
+        def class_repr_fails(name, env):
+            try:
+                r = repr(env.undefined(name=S))
+            except jinja2.UndefinedError:
+                return True
+            except Exception as e:
+                raise Refuse(f"repr of the undefined class of {name} raises {e!r}")
+            if r == "Undefined":
+                return False
+            raise Refuse(f"repr of the undefined class of {name} is {r!r}: neither 'Undefined' nor an UndefinedError")
+
+        for name, env, beh in (("env", cp.env, env_repr), ("native_env", cp.native_env, nat_repr)):
+            c = class_repr_fails(name, env)
+            if c != beh:
+                raise Refuse(f"{name}: repr of the undefined class fails={c} but rendering a container says {beh}")
+
+        def holds_undef(v):
+            if isinstance(v, jinja2.Undefined):
+                return True
+            if isinstance(v, (list, tuple)):
+                return any(holds_undef(x) for x in v)
+            if isinstance(v, dict):
+                return any(holds_undef(x) for x in v.values())
+            return False
+
+        obj_cases = ["{@ %s @}" % S, "{@ [%s] @}" % S, "{@ (%s, 1) @}" % S, "{@ {'a': %s} @}" % S,
+                     "{@ [1, [(%s,)]] @}" % S, "{@ {'a': ['b', {'c': %s}]} @}" % S, "{@ ['b', zq_obj.%s] @}" % S,
+                     "{@ (zq_list[7],) @}"]
+        nat_check = shape_probe("native_result_checked", [(t, holds_undef) for t in obj_cases])
+        # control: containers of DEFINED values come back as they are, whatever the flags
+        for t, want in [("{@ [zq_defined, (1, {'a': zq_list})] @}", ["v", (1, {"a": ["e"]})]),
+                        ("{{ [zq_defined, (1, {'a': zq_list})] }}", "['v', (1, {'a': ['e']})]"),
+                        ("{{ (zq_defined,) }}", "('v',)"), ("{@ () @}", ()), ("{@ {} @}", {})]:
+            try:
+                got = CellParser().parse_as_string(t, ctx)
+            except (Crit, Exception, SystemExit) as e:
+                raise Refuse(f"control probe {t!r} fails: {e}")
+            if got != want or type(got) is not type(want):
+                raise Refuse(f"control probe {t!r} gives {got!r}, expected {want!r}")
+        out.append(f"Definition env_repr_fails : bool := {'true' if env_repr else 'false'}.")
+        out.append(f"Definition native_repr_fails : bool := {'true' if nat_repr else 'false'}.")
+        out.append(f"Definition native_result_checked : bool := {'true' if nat_check else 'false'}.")
     finally:
         lg.removeHandler(h)
         lg.setLevel(old_level)
